@@ -1,7 +1,6 @@
 package sym
 
 import (
-	"math/big"
 
 	"golang.org/x/tools/go/ssa"
 
@@ -44,7 +43,87 @@ func (x *Exec) registerContracts() {
 		n := p.C.Add(p.C.MulC(n1, two64), n0)
 		return TupleV{p.C.DivC(n, bigD), p.C.ModC(n, bigD)}, nil
 	}
-	_ = big.NewInt
+	// ---- natural-number layer (proved by C06 from the real bodies)
+	valOf := func(p *Path, v Value) (*term.Term, int) {
+		sl := v.(SliceV)
+		var parts []*term.Term
+		for i := 0; i < sl.Len; i++ {
+			parts = append(parts, p.C.MulC(sl.Obj.Cells[sl.Off+i].(*term.Term), term.Pow10(19*i)))
+		}
+		return p.C.Sum(parts...), sl.Len
+	}
+	// wordsOf builds a normalised dec holding the value v (< D^maxLen)
+	wordsOf := func(p *Path, v *term.Term, maxLen int, what string) SliceV {
+		C := p.C
+		// number of base-D words: case split
+		k := C.Int(int64(maxLen))
+		for j := maxLen - 1; j >= 0; j-- {
+			k = C.Ite(C.Lt(v, C.Const(term.Pow10(19*j))), C.Int(int64(j)), k)
+		}
+		n := int(p.concretize(k, "contract "+what+": result length"))
+		et := p.X.wordType()
+		o := p.newObject(et, n+4, what+" result")
+		for i := 0; i < n; i++ {
+			o.Cells[i] = C.ModC(C.DivC(v, term.Pow10(19*i)), bigD)
+		}
+		for i := n; i < n+4; i++ {
+			o.Cells[i] = C.Int(0)
+		}
+		return SliceV{Obj: o, Len: n, Cap: n + 4, Elem: et, ESize: 1}
+	}
+	contractTable["("+d+"dec).mul"] = func(p *Path, fn *ssa.Function, a []Value) (Value, *Panic) {
+		X, m := valOf(p, a[1])
+		Y, n := valOf(p, a[2])
+		if m == 0 || n == 0 {
+			z := a[0].(SliceV)
+			z.Len = 0
+			return z, nil
+		}
+		if !X.IsConst() && !Y.IsConst() {
+			p.nonlinear = true
+		}
+		return wordsOf(p, p.C.Mul(X, Y), m+n, "dec.mul"), nil
+	}
+	contractTable["("+d+"dec).sqr"] = func(p *Path, fn *ssa.Function, a []Value) (Value, *Panic) {
+		X, m := valOf(p, a[1])
+		if m == 0 {
+			z := a[0].(SliceV)
+			z.Len = 0
+			return z, nil
+		}
+		if !X.IsConst() {
+			p.nonlinear = true
+		}
+		return wordsOf(p, p.C.Mul(X, X), 2*m, "dec.sqr"), nil
+	}
+	contractTable["("+d+"dec).div"] = func(p *Path, fn *ssa.Function, a []Value) (Value, *Panic) {
+		U, m := valOf(p, a[2])
+		V, n := valOf(p, a[3])
+		if n == 0 {
+			return nil, &Panic{V: IfaceV{T: p.X.stringType(), V: p.strConst("division by zero")}, Where: "dec.div (contract)"}
+		}
+		// v is normalised by the callers (checked): V > 0
+		p.assert("C06.pre.div.vnorm", p.C.Gt(V, p.C.Int(0)), "divisor is not zero")
+		if !V.IsConst() {
+			p.nonlinear = true
+		}
+		Q, R := p.C.Div(U, V), p.C.Mod(U, V)
+		ql := m - n + 1
+		if ql < 0 {
+			ql = 0
+		}
+		q := wordsOf(p, Q, ql, "dec.div quotient")
+		r := wordsOf(p, R, n, "dec.div remainder")
+		return TupleV{q, r}, nil
+	}
+}
+
+func (x *Exec) wordType() typesType {
+	return x.Pkgs["decimal"].Type("Word").Type()
+}
+
+func (x *Exec) stringType() typesType {
+	return x.Pkgs["decimal"].Prog.ImportedPackage("errors").Func("New").Signature.Params().At(0).Type()
 }
 
 // contract returns the enabled summary for fn, if any.
@@ -59,7 +138,15 @@ func (x *Exec) contract(fn *ssa.Function) (intrinsicFn, string) {
 	}
 	short := name[len(DecimalPath)+1:]
 	if name[0] == '(' {
-		short = "magic.div"
+		// (pkg.T).m -> T.m
+		i := len("(" + DecimalPath + ".")
+		short = name[i:]
+		for j := 0; j < len(short); j++ {
+			if short[j] == ')' {
+				short = short[:j] + short[j+1:]
+				break
+			}
+		}
 	}
 	if !x.Contracts[short] {
 		return nil, ""
